@@ -59,6 +59,7 @@ def option_product(n_dgms):
 
 
 def cases(tier):
+    yield {"kind": "large-matching"}
     for ci, (name, dgms) in enumerate(COVER):
         for opt in option_product(len(dgms)):
             yield {"kind": "diagrams", "cover": ci, "opt": opt}
@@ -102,7 +103,9 @@ def run_case(case, ctx):
     try:
         with warnings.catch_warnings():
             warnings.simplefilter("ignore")
-            if case["kind"] == "diagrams":
+            if case["kind"] == "large-matching":
+                large_matching_case(ctx)
+            elif case["kind"] == "diagrams":
                 diagrams_case(case, ctx)
             else:
                 matching_case(case, ctx)
@@ -246,6 +249,46 @@ def seg_key(l):
 def same_seg(a, b, tol=1e-6):
     a, b = np.array(a), np.array(b)
     return np.all(np.abs(a - b) <= tol) or np.all(np.abs(a - b[[2, 3, 0, 1]]) <= tol)
+
+
+def large_matching_case(ctx):
+    """A matching with several hundred rows whose bottleneck pair is one of the LAST rows."""
+    import matplotlib.pyplot as plt
+    import persim
+
+    from checks.common import medium_diagram
+
+    for n in (40, 140):
+        S = medium_diagram(n, 0, False)
+        T = medium_diagram(n, 1, False) + [[0.0, 30.0]]      # unmatched long bar at the end: the bottleneck pair
+        A, B = np.array(S), np.array(T)
+        for which in ("bottleneck", "wasserstein"):
+            d, m = getattr(persim, which)(A, B, matching=True)
+            m = np.asarray(m, dtype=float)
+            fig, target, other, axarg = setup_axes("given-not-current")
+            ctx.trans()
+            getattr(persim, which + "_matching")(A, B, m, ax=axarg)
+            ex = {"n": n, "which": which, "rows": len(m)}
+            ctx.state(("large-matching", n, which))
+            ctx.nontriv("matching_with_%d_rows" % len(m), key=("large-matching", n, which))
+            untouched(ctx, other, which + "_matching", ex)
+            segs = [l for l in target.lines if len(l.get_xdata()) == 2 and not (abs(seg_key(l)[0] - seg_key(l)[1]) <= 1e-9 and abs(seg_key(l)[2] - seg_key(l)[3]) <= 1e-9)]
+            ctx.valid(2)
+            if len(segs) != len(m):
+                ctx.violation("matching-segment-missing", "%s_matching: %d segments for %d matched pairs" % (which, len(segs), len(m)), extra=ex)
+            if which == "bottleneck":
+                top = int(np.argmax(m[:, 2]))
+                i, j = int(m[top, 0]), int(m[top, 1])
+                p = S[i] if i >= 0 else T[j]
+                q = T[j] if (i >= 0 and j >= 0) else [(p[0] + p[1]) / 2.0] * 2
+                want = (p[0], p[1], q[0], q[1])
+                hit = [l for l in segs if same_seg(seg_key(l), want)]
+                styles = [(str(l.get_color()), str(l.get_linestyle()), float(l.get_linewidth())) for l in segs]
+                ok = len(hit) >= 1 and any(styles.count((str(l.get_color()), str(l.get_linestyle()), float(l.get_linewidth()))) == 1 for l in hit) and len(set(styles)) == 2
+                if not ok:
+                    ctx.violation("bottleneck-pair-not-marked", "the bottleneck pair (row %d of %d) is not the one distinctly styled segment" % (top, len(m)),
+                                  observed={"distinct_styles": len(set(styles))}, extra=ex)
+            plt.close(fig)
 
 
 def matching_case(case, ctx):
